@@ -263,6 +263,10 @@ def judge_call(ctx, case, res, pre_existing, records, mres):
     robj = {"part": "x:call", "case": case, "impl": res}
     ctx.case({k: case[k] for k in ("mode", "type", "owner_env", "ident_env", "proc")} | {"hooks": [x["io"] for x in case["hooks"]]})
     ctx.count("x:call:mode:" + case["mode"])
+    if isinstance(res, dict) and res.get("hung"):
+        ctx.violation("hooks_call (%s, %s): hook call did not return (no result for %s s; hooks that left a record: %s of %s)" % (
+            case["mode"], ty, res.get("waited_s"), [r["name"] for r in records], [x["h"]["name"] for x in case["hooks"]]), robj)
+        return
     if not isinstance(res, dict) or "ok" not in res:
         ctx.violation("hooks_call (%s, %s): no result: %s" % (case["mode"], ty, str(res)[:200]), robj)
         return
@@ -351,7 +355,8 @@ def call_run(ctx, root, rng):
             c["proc"] = b[0]["proc"]
 
     def work(b):
-        return vlib.probe([call_op(c) for c in b], extra_env=b[0]["proc"]) if b else []
+        from ext import probewatch      # per-case time-out: a call that never returns is reported on its case
+        return probewatch.probe([call_op(c) for c in b], extra_env=b[0]["proc"]) if b else []
     with concurrent.futures.ThreadPoolExecutor(max_workers=nb) as ex:
         results = list(ex.map(work, batches))
     return [(c, r) for b, rs in zip(batches, results) for c, r in zip(b, rs)], pre
@@ -707,7 +712,8 @@ def replay(ctx, obj, root):
         old_root = os.path.dirname(case["log"])
         import json
         case = json.loads(json.dumps(case).replace(old_root, root))
-        res = vlib.probe([call_op(case)], extra_env=case["proc"])[0]
+        from ext import probewatch
+        res = probewatch.probe([call_op(case)], extra_env=case["proc"])[0]
         call_judge(ctx, [(case, res)], set())
     elif part == "x:config":
         c = obj["case"]
